@@ -49,7 +49,7 @@ fn main() {
                 "steer" => files::drive_steer(seed, &tier, &mut out),
                 "malformed" => {
                     let wd = std::path::Path::new(outp).parent().expect("dir").to_str().expect("utf8").to_string();
-                    malformed::drive(seed, &tier, arg(&args, "--stim"), &wd, &mut out)
+                    malformed::drive(seed, &tier, arg(&args, "--stim"), arg(&args, "--stim2"), &wd, &mut out)
                 }
                 "compress" => {
                     let wd = std::path::Path::new(outp).parent().expect("dir").to_str().expect("utf8").to_string();
